@@ -25,35 +25,35 @@ type Finding struct {
 
 // Result is what a child reports to the coordinator.
 type Result struct {
-	Case          Case             `json:"case"`
-	Findings      []Finding        `json:"findings"`
-	Notes         []string         `json:"notes,omitempty"`
-	Inconclusive  string           `json:"inconclusive,omitempty"`
-	HarnessError  string           `json:"harness_error,omitempty"`
-	Produced      int64            `json:"produced"`
-	ProducedO     int64            `json:"produced_output"`
-	ProducedE     int64            `json:"produced_error"`
-	Verified      int64            `json:"verified"`       // (group, id) pairs found with exactly the expected multiplicity, intact
-	SinkLines     int64            `json:"sink_lines"`     // lines parsed back
-	IDLines       int64            `json:"id_lines"`       // lines carrying a message id
-	Switches      int64            `json:"switches"`       // adjacent sink lines from different producers (actual interleaving of producers)
-	MaxActive     int64            `json:"max_active"`     // most producers inside the workload at once
-	SetLogSrc     int64            `json:"set_log_source_calls"`
-	SetLoggerSrc  int64            `json:"set_logger_source_calls"`
-	SetErrors     int64            `json:"set_source_errors"`
-	AppendCalls   int64            `json:"append_calls"`
-	AppendJudged  int64            `json:"append_judged"` // messages begun after a concurrent Append returned, judged against the appended member
-	Groups        int              `json:"groups"`
+	Case          Case              `json:"case"`
+	Findings      []Finding         `json:"findings"`
+	Notes         []string          `json:"notes,omitempty"`
+	Inconclusive  string            `json:"inconclusive,omitempty"`
+	HarnessError  string            `json:"harness_error,omitempty"`
+	Produced      int64             `json:"produced"`
+	ProducedO     int64             `json:"produced_output"`
+	ProducedE     int64             `json:"produced_error"`
+	Verified      int64             `json:"verified"`   // (group, id) pairs found with exactly the expected multiplicity, intact
+	SinkLines     int64             `json:"sink_lines"` // lines parsed back
+	IDLines       int64             `json:"id_lines"`   // lines carrying a message id
+	Switches      int64             `json:"switches"`   // adjacent sink lines from different producers (actual interleaving of producers)
+	MaxActive     int64             `json:"max_active"` // most producers inside the workload at once
+	SetLogSrc     int64             `json:"set_log_source_calls"`
+	SetLoggerSrc  int64             `json:"set_logger_source_calls"`
+	SetErrors     int64             `json:"set_source_errors"`
+	AppendCalls   int64             `json:"append_calls"`
+	AppendJudged  int64             `json:"append_judged"` // messages begun after a concurrent Append returned, judged against the appended member
+	Groups        int               `json:"groups"`
 	Multiplicity  map[string][2]int `json:"sequential_multiplicity,omitempty"`
-	MaxPayload    int              `json:"max_payload"`
-	MinPayload    int              `json:"min_payload"`
-	AsyncProduced int64            `json:"async_produced,omitempty"`
-	AsyncDeliv    int64            `json:"async_delivered,omitempty"`
-	AsyncReported int64            `json:"async_reported_dropped,omitempty"`
-	AsyncReports  int64            `json:"async_drop_reports,omitempty"`
-	QuietLeak     int64            `json:"quiet_output_leaked,omitempty"`
-	WorkloadMS    int64            `json:"workload_ms"`
-	SampleLines   []string         `json:"sample_lines,omitempty"`
+	MaxPayload    int               `json:"max_payload"`
+	MinPayload    int               `json:"min_payload"`
+	AsyncProduced int64             `json:"async_produced,omitempty"`
+	AsyncDeliv    int64             `json:"async_delivered,omitempty"`
+	AsyncReported int64             `json:"async_reported_dropped,omitempty"`
+	AsyncReports  int64             `json:"async_drop_reports,omitempty"`
+	QuietLeak     int64             `json:"quiet_output_leaked,omitempty"`
+	WorkloadMS    int64             `json:"workload_ms"`
+	SampleLines   []string          `json:"sample_lines,omitempty"`
 }
 
 const alphabet = "jkqvwxz"
@@ -367,6 +367,9 @@ func runChild(c Case, res *Result) {
 					}
 					masks[p][s] = mk
 				}
+				if c.PaceUS > 0 && s%16 == 0 {
+					time.Sleep(time.Duration(c.PaceUS) * time.Microsecond)
+				}
 				m := all[p][s]
 				if m.stream == 'O' {
 					lg.Log(m.text)
@@ -434,8 +437,8 @@ func runChild(c Case, res *Result) {
 	runtime.KeepAlive(lg)
 }
 
-func sig(c Case, effect, phase string) map[string]string {
-	return map[string]string{"ctor": c.Ctor, "effect": effect, "phase": phase}
+func sig(c Case, g *group, effect, phase string) map[string]string {
+	return map[string]string{"ctor": c.Ctor, "effect": effect, "phase": phase, "sink": g.kind}
 }
 
 func judgeGroup(c Case, b *built, g *group, pp *parsed, all [][]msg, masks [][]uint8, calibrated bool, res *Result) {
@@ -454,7 +457,7 @@ func judgeGroup(c Case, b *built, g *group, pp *parsed, all [][]msg, masks [][]u
 			k[i] = ks[i][0]
 			for _, v := range ks[i] {
 				if v != k[i] {
-					res.Findings = append(res.Findings, Finding{Sig: sig(c, "inconsistent-multiplicity", "sequential"),
+					res.Findings = append(res.Findings, Finding{Sig: sig(c, g, "inconsistent-multiplicity", "sequential"),
 						What:    fmt.Sprintf("%s: sequential messages delivered to %s with different multiplicities %v", c.Ctor, g.name, ks[i]),
 						Witness: map[string]any{"case": c, "group": g.name, "multiplicities": ks}})
 					break
@@ -474,7 +477,7 @@ func judgeGroup(c Case, b *built, g *group, pp *parsed, all [][]msg, masks [][]u
 			if k[0] > want[0] || k[1] > want[1] {
 				eff = "duplicated"
 			}
-			res.Findings = append(res.Findings, Finding{Sig: sig(c, eff, "sequential"),
+			res.Findings = append(res.Findings, Finding{Sig: sig(c, g, eff, "sequential"),
 				What:    fmt.Sprintf("%s: even from ONE goroutine a message reaches %s %d (output) / %d (error) times instead of once", c.Ctor, g.name, k[0], k[1]),
 				Witness: map[string]any{"case": c, "group": g.name, "multiplicity_output_error": k}})
 		}
@@ -491,7 +494,7 @@ func judgeGroup(c Case, b *built, g *group, pp *parsed, all [][]msg, masks [][]u
 		if n == 0 {
 			return
 		}
-		res.Findings = append(res.Findings, Finding{Sig: sig(c, effect, "concurrent"),
+		res.Findings = append(res.Findings, Finding{Sig: sig(c, g, effect, "concurrent"),
 			What:    fmt.Sprintf("%s: %d sink line(s) of %s %s", c.Ctor, n, g.name, what),
 			Witness: map[string]any{"case": c, "group": g.name, "count": n, "lines": samples}})
 	}
@@ -513,7 +516,7 @@ func judgeGroup(c Case, b *built, g *group, pp *parsed, all [][]msg, masks [][]u
 			}
 		}
 		if n > 0 {
-			res.Findings = append(res.Findings, Finding{Sig: sig(c, "duplicated", "concurrent"),
+			res.Findings = append(res.Findings, Finding{Sig: sig(c, g, "duplicated", "concurrent"),
 				What:    fmt.Sprintf("%s: %d message(s) delivered more than once to %s", c.Ctor, n, g.name),
 				Witness: map[string]any{"case": c, "group": g.name, "ids": dups}})
 		}
@@ -568,12 +571,12 @@ func judgeGroup(c Case, b *built, g *group, pp *parsed, all [][]msg, masks [][]u
 		lostEffect = "member-missing"
 	}
 	if nLost > 0 {
-		res.Findings = append(res.Findings, Finding{Sig: sig(c, lostEffect, "concurrent"),
+		res.Findings = append(res.Findings, Finding{Sig: sig(c, g, lostEffect, "concurrent"),
 			What:    fmt.Sprintf("%s: %d of %d produced message(s) missing from %s after all %d producers joined", c.Ctor, nLost, res.Produced, g.name, c.P),
 			Witness: map[string]any{"case": c, "group": g.name, "missing": nLost, "ids": lost}})
 	}
 	if nDup > 0 {
-		res.Findings = append(res.Findings, Finding{Sig: sig(c, "duplicated", "concurrent"),
+		res.Findings = append(res.Findings, Finding{Sig: sig(c, g, "duplicated", "concurrent"),
 			What:    fmt.Sprintf("%s: %d message(s) found more often than from a single goroutine in %s", c.Ctor, nDup, g.name),
 			Witness: map[string]any{"case": c, "group": g.name, "ids": dup}})
 	}
@@ -592,6 +595,7 @@ func stdReported(c Case) (total, reports int64) {
 }
 
 func judgeAsync(c Case, b *built, pp *parsed, res *Result) {
+	g := b.groups[0]
 	var delivered int64
 	for id := range pp.count {
 		if id[0] >= 1 {
@@ -607,7 +611,7 @@ func judgeAsync(c Case, b *built, pp *parsed, res *Result) {
 	res.AsyncProduced, res.AsyncDeliv, res.AsyncReported, res.AsyncReports = res.Produced, delivered, reported, reports
 	res.Verified += delivered
 	if res.Produced-delivered > reported {
-		res.Findings = append(res.Findings, Finding{Sig: sig(c, "unreported-drop", "concurrent"),
+		res.Findings = append(res.Findings, Finding{Sig: sig(c, g, "unreported-drop", "concurrent"),
 			What: fmt.Sprintf("%s (ring %d): produced %d, delivered %d at quiescence, but only %d reported as dropped (%d reports): %d message(s) vanished unreported",
 				c.Ctor, c.Ring, res.Produced, delivered, reported, reports, res.Produced-delivered-reported),
 			Witness: map[string]any{"case": c, "produced": res.Produced, "delivered": delivered, "reported_dropped": reported, "drop_reports": reports}})
